@@ -126,6 +126,8 @@ def playback(unit: Unit, h: Harness, ws: Path, logdir: Path):
     if target is None:
         info["native_replay"] = "no-playback-anchor"
         return info
+    # the generated test uses `vec!`/`Vec`, which are not in scope in #![no_std] crates: import them from alloc inside the test fn
+    test_src = re.sub(r"(fn kani_concrete_playback_\w+\(\) \{)", r"\1\n    extern crate alloc as valloc; use valloc::vec; use valloc::vec::Vec;", test_src, count=1)
     t = target.read_text().replace("// @@PLAYBACK@@", test_src + "\n// @@PLAYBACK@@", 1)
     target.write_text(t)
     cwd = ws / unit.harness_crate if unit.harness_crate else ws
@@ -211,6 +213,8 @@ def main(argv=None):
     pool = ThreadPoolExecutor(max_workers=core.NCPU)
 
     def prep(u: Unit):
+        if u.kind == "verus":
+            return None, {"kind": "verus lemma files, checked as they are"}, 0.0
         ws = core.scratch_root() / u.name
         core.copy_repo(ws)
         rec = core.inject(u, ws)
